@@ -10,6 +10,7 @@ use rand_chacha::ChaCha8Rng;
 use std::io::Write;
 
 mod c07;
+mod c13;
 mod c20;
 mod hist;
 mod world;
@@ -79,6 +80,7 @@ fn main() {
     match prop.as_str() {
         "C20" => c20::run(&mut ctx),
         "C07" => c07::run(&mut ctx),
+        "C13" => c13::run(&mut ctx),
         other => { eprintln!("unknown property {other}"); std::process::exit(2); }
     }
     ctx.emit.out.flush().unwrap();
